@@ -142,8 +142,12 @@ Definition push (s : state) (x : tid) (c : cmd) (pg : bool) : state :=
   set_flag (set_qu s x ((if pg then purge (qu s x) else qu s x) ++ [c])) x true.
 
 (** thread actions: every action is one synchronisation operation of the real code (plus the
-    local computation up to the next one), except the pure decisions AFinish/AStartJob/ABest,
-    which the hooked engine logs as events of their own *)
+    thread-local computation up to the next one); the thread-local decisions AFinish (when
+    hasResult is already set), AMaxDepth, AInitSearch / AStartJob (without children), ABest,
+    AStopSearch and the unsynchronised reads ARdQuit / ARdSearch are logged by the hooked engine
+    as events of their own.  The model over-approximates the code in harmless ways: AFinish /
+    AMaxDepth / AStartJob / ABest are enabled also in the middle of a poll loop, and the order in
+    which a communicator serves its children is free. *)
 Inductive act :=
 | AWait                 (* Notifier::wait returns (flag consumed) *)
 | APollEmpty            (* poll: mailbox locked and found empty *)
